@@ -118,7 +118,8 @@ func (runInfo *runInfoStruct) runSingleStmt() {
 		if runInfo.err != nil {
 			return
 		}
-		runInfo.err = newStringError(stmt, fmt.Sprint(runInfo.rv.Interface()))
+		// throw always raises, also with an empty message (newStringError gives nil for one)
+		runInfo.err = &Error{Message: fmt.Sprint(runInfo.rv.Interface()), Pos: stmt.Position()}
 
 	// ModuleStmt
 	case *ast.ModuleStmt:
